@@ -6,7 +6,7 @@ use crate::val::{Tracked, Val};
 use chumsky::error::{Cheap, EmptyErr, LabelError, Rich, RichPattern, RichReason, Simple};
 use chumsky::extension::v1::{Ext, ExtParser};
 use chumsky::extra::Full;
-use chumsky::input::{Checkpoint, Cursor, InputRef, ValueInput};
+use chumsky::input::{Checkpoint, Cursor, Input, InputRef, ValueInput};
 use chumsky::inspector::Inspector;
 use chumsky::prelude::*;
 use chumsky::recursive::{Indirect, Recursive};
@@ -183,14 +183,191 @@ pub struct ErrDesc {
 pub type Ex<R> = Full<R, Insp, Val>;
 pub type BP<'s, I, R> = Boxed<'s, 's, I, Val, Ex<R>>;
 
-pub trait Kind<'s>: ValueInput<'s, Token = Self::Tok, Span = Self::Spn> + Sized + 's {
+macro_rules! toks {
+    ($s:expr, $I:ty) => {
+        $s.chars().map(<<$I as Kind>::Tok as Tk>::from_char).collect::<Vec<_>>()
+    };
+}
+
+pub trait Kind<'s>: Input<'s, Token = Self::Tok, Span = Self::Spn> + Sized + 's {
     type Tok: Tk;
     type Spn: Sp;
     const HAS_SLICE: bool;
+    /// false for inputs that implement only `Input` (IterInput): any / one_of / none_of / select / not / lazy /
+    /// custom / nested_delimiters are not available there and the generators do not produce them
+    const VALUE: bool = true;
     fn slice_node<R: Er<'s, Self>>(p: BP<'s, Self, R>) -> BP<'s, Self, R>;
     fn map_slice_node<R: Er<'s, Self>>(p: BP<'s, Self, R>) -> BP<'s, Self, R>;
     /// value-building formulation of to_slice(): map_with(|_, e| e.slice())
     fn slice_node_explicit<R: Er<'s, Self>>(p: BP<'s, Self, R>) -> BP<'s, Self, R>;
+    // primitives and combinators that need ValueInput
+    fn p_any<R: Er<'s, Self>>() -> BP<'s, Self, R>;
+    fn p_one_of<R: Er<'s, Self>>(set: &str) -> BP<'s, Self, R>;
+    fn p_none_of<R: Er<'s, Self>>(set: &str) -> BP<'s, Self, R>;
+    fn p_select<R: Er<'s, Self>>(set: &str, flavour: SelFlavour) -> BP<'s, Self, R>;
+    fn p_custom<R: Er<'s, Self>>(take: u8, ok: bool, tag: u32) -> BP<'s, Self, R>;
+    fn p_ext<R: Er<'s, Self>>(take: u8, ok: bool, tag: u32) -> BP<'s, Self, R>;
+    fn p_not<R: Er<'s, Self>>(p: BP<'s, Self, R>) -> BP<'s, Self, R>;
+    fn p_lazy<R: Er<'s, Self>>(p: BP<'s, Self, R>) -> BP<'s, Self, R>;
+    fn p_nested<R: Er<'s, Self>>(a: BP<'s, Self, R>, open: char, close: char, others: &[(char, char)], tag: u32) -> BP<'s, Self, R>;
+}
+
+#[derive(Clone, Copy, Debug, PartialEq, Eq)]
+pub enum SelFlavour {
+    Plain,
+    /// the closure also records e.state() (C18)
+    State,
+    /// the closure also records e.span() (C07)
+    Span,
+}
+
+/// the ValueInput-only primitives, written once for every kind that is a ValueInput
+pub mod vprims {
+    use super::*;
+    pub fn any<'s, I: Kind<'s> + ValueInput<'s>, R: Er<'s, I>>() -> BP<'s, I, R> {
+        chumsky::primitive::any::<I, Ex<R>>().map(|t: I::Tok| Val::Tok(t.to_char())).boxed()
+    }
+    pub fn one_of<'s, I: Kind<'s> + ValueInput<'s>, R: Er<'s, I>>(s: &str) -> BP<'s, I, R> {
+        chumsky::primitive::one_of::<_, I, Ex<R>>(toks!(s, I)).map(|t: I::Tok| Val::Tok(t.to_char())).boxed()
+    }
+    pub fn none_of<'s, I: Kind<'s> + ValueInput<'s>, R: Er<'s, I>>(s: &str) -> BP<'s, I, R> {
+        chumsky::primitive::none_of::<_, I, Ex<R>>(toks!(s, I)).map(|t: I::Tok| Val::Tok(t.to_char())).boxed()
+    }
+    pub fn select<'s, I: Kind<'s> + ValueInput<'s>, R: Er<'s, I>>(s: &str, flavour: SelFlavour) -> BP<'s, I, R> {
+        let set = s.to_string();
+        chumsky::primitive::select::<_, I, Val, Ex<R>>(move |t: I::Tok, e| {
+            let c = t.to_char();
+            if !set.contains(c) {
+                return None;
+            }
+            Some(match flavour {
+                SelFlavour::Plain => Val::Tok(c),
+                SelFlavour::State => {
+                    let st = e.state();
+                    Val::St(st.n, st.h, Box::new(Val::Tok(c)))
+                }
+                SelFlavour::Span => {
+                    let (s, e2) = e.span().se();
+                    Val::pair(Val::Span(s, e2), Val::Tok(c))
+                }
+            })
+        })
+        .boxed()
+    }
+    pub fn custom<'s, I: Kind<'s> + ValueInput<'s>, R: Er<'s, I>>(take: u8, ok: bool, tag: u32) -> BP<'s, I, R> {
+        chumsky::primitive::custom::<_, I, Val, Ex<R>>(move |inp| {
+            let before = inp.cursor();
+            let mut s = String::new();
+            for i in 0..take {
+                // every second token is taken with peek() + skip() instead of next()
+                let t = if i % 2 == 1 {
+                    let t = inp.peek();
+                    if t.is_some() {
+                        inp.skip();
+                    }
+                    t
+                } else {
+                    inp.next()
+                };
+                match t {
+                    Some(t) => s.push(t.to_char()),
+                    None => return Err(R::custom(inp.span_since(&before), format!("C{}:eof", tag))),
+                }
+            }
+            if ok {
+                Ok(Val::Str(s))
+            } else {
+                Err(R::custom(inp.span_since(&before), format!("C{}", tag)))
+            }
+        })
+        .boxed()
+    }
+    pub fn ext<'s, I: Kind<'s> + ValueInput<'s>, R: Er<'s, I>>(take: u8, ok: bool, tag: u32) -> BP<'s, I, R> {
+        Parser::<'s, I, Val, Ex<R>>::boxed(Ext(ExtP { take, ok, tag }))
+    }
+    pub fn not<'s, I: Kind<'s> + ValueInput<'s>, R: Er<'s, I>>(p: BP<'s, I, R>) -> BP<'s, I, R> {
+        p.not().map(|()| Val::Unit).boxed()
+    }
+    pub fn lazy<'s, I: Kind<'s> + ValueInput<'s>, R: Er<'s, I>>(p: BP<'s, I, R>) -> BP<'s, I, R> {
+        p.lazy().boxed()
+    }
+    pub fn nested<'s, I: Kind<'s> + ValueInput<'s>, R: Er<'s, I>>(a: BP<'s, I, R>, open: char, close: char, others: &[(char, char)], tag: u32) -> BP<'s, I, R> {
+        let o = I::Tok::from_char(open);
+        let c = I::Tok::from_char(close);
+        let ot: Vec<(I::Tok, I::Tok)> = others.iter().map(|(a, b)| (I::Tok::from_char(*a), I::Tok::from_char(*b))).collect();
+        let fb = move |_s: I::Spn| Val::Fallback(tag);
+        match ot.len() {
+            0 => a.recover_with(via_parser(nested_delimiters::<I, Val, Ex<R>, _, 0>(o, c, [], fb))).boxed(),
+            1 => a.recover_with(via_parser(nested_delimiters::<I, Val, Ex<R>, _, 1>(o, c, [ot[0].clone()], fb))).boxed(),
+            _ => a.recover_with(via_parser(nested_delimiters::<I, Val, Ex<R>, _, 2>(o, c, [ot[0].clone(), ot[1].clone()], fb))).boxed(),
+        }
+    }
+}
+
+/// forwards the ValueInput-only primitives of `Kind` to `vprims`
+macro_rules! value_kind_prims {
+    () => {
+        fn p_any<R: Er<'s, Self>>() -> BP<'s, Self, R> {
+            vprims::any::<Self, R>()
+        }
+        fn p_one_of<R: Er<'s, Self>>(set: &str) -> BP<'s, Self, R> {
+            vprims::one_of::<Self, R>(set)
+        }
+        fn p_none_of<R: Er<'s, Self>>(set: &str) -> BP<'s, Self, R> {
+            vprims::none_of::<Self, R>(set)
+        }
+        fn p_select<R: Er<'s, Self>>(set: &str, flavour: SelFlavour) -> BP<'s, Self, R> {
+            vprims::select::<Self, R>(set, flavour)
+        }
+        fn p_custom<R: Er<'s, Self>>(take: u8, ok: bool, tag: u32) -> BP<'s, Self, R> {
+            vprims::custom::<Self, R>(take, ok, tag)
+        }
+        fn p_ext<R: Er<'s, Self>>(take: u8, ok: bool, tag: u32) -> BP<'s, Self, R> {
+            vprims::ext::<Self, R>(take, ok, tag)
+        }
+        fn p_not<R: Er<'s, Self>>(p: BP<'s, Self, R>) -> BP<'s, Self, R> {
+            vprims::not::<Self, R>(p)
+        }
+        fn p_lazy<R: Er<'s, Self>>(p: BP<'s, Self, R>) -> BP<'s, Self, R> {
+            vprims::lazy::<Self, R>(p)
+        }
+        fn p_nested<R: Er<'s, Self>>(a: BP<'s, Self, R>, open: char, close: char, others: &[(char, char)], tag: u32) -> BP<'s, Self, R> {
+            vprims::nested::<Self, R>(a, open, close, others, tag)
+        }
+    };
+}
+/// the same for kinds that are not ValueInputs
+macro_rules! no_value_prims {
+    () => {
+        const VALUE: bool = false;
+        fn p_any<R: Er<'s, Self>>() -> BP<'s, Self, R> {
+            unreachable!("any() needs a ValueInput")
+        }
+        fn p_one_of<R: Er<'s, Self>>(_set: &str) -> BP<'s, Self, R> {
+            unreachable!("one_of() needs a ValueInput")
+        }
+        fn p_none_of<R: Er<'s, Self>>(_set: &str) -> BP<'s, Self, R> {
+            unreachable!("none_of() needs a ValueInput")
+        }
+        fn p_select<R: Er<'s, Self>>(_set: &str, _flavour: SelFlavour) -> BP<'s, Self, R> {
+            unreachable!("select!() needs a ValueInput")
+        }
+        fn p_custom<R: Er<'s, Self>>(_take: u8, _ok: bool, _tag: u32) -> BP<'s, Self, R> {
+            unreachable!("the generated custom() parser needs a ValueInput")
+        }
+        fn p_ext<R: Er<'s, Self>>(_take: u8, _ok: bool, _tag: u32) -> BP<'s, Self, R> {
+            unreachable!("the generated Ext parser needs a ValueInput")
+        }
+        fn p_not<R: Er<'s, Self>>(_p: BP<'s, Self, R>) -> BP<'s, Self, R> {
+            unreachable!("not() needs a ValueInput")
+        }
+        fn p_lazy<R: Er<'s, Self>>(_p: BP<'s, Self, R>) -> BP<'s, Self, R> {
+            unreachable!("lazy() needs a ValueInput")
+        }
+        fn p_nested<R: Er<'s, Self>>(_a: BP<'s, Self, R>, _open: char, _close: char, _others: &[(char, char)], _tag: u32) -> BP<'s, Self, R> {
+            unreachable!("nested_delimiters() needs a ValueInput")
+        }
+    };
 }
 
 pub trait Er<'s, I: Kind<'s>>:
@@ -312,6 +489,7 @@ fn tok_slice_val<T: Tk>(s: &[T]) -> Val {
 }
 
 impl<'s> Kind<'s> for &'s str {
+    value_kind_prims!();
     type Tok = char;
     type Spn = SimpleSpan;
     const HAS_SLICE: bool = true;
@@ -326,6 +504,7 @@ impl<'s> Kind<'s> for &'s str {
     }
 }
 impl<'s, T: Tk> Kind<'s> for &'s [T] {
+    value_kind_prims!();
     type Tok = T;
     type Spn = SimpleSpan;
     const HAS_SLICE: bool = true;
@@ -342,6 +521,7 @@ impl<'s, T: Tk> Kind<'s> for &'s [T] {
 
 pub type CharStream = chumsky::input::Stream<std::vec::IntoIter<char>>;
 impl<'s> Kind<'s> for CharStream {
+    value_kind_prims!();
     type Tok = char;
     type Spn = SimpleSpan;
     const HAS_SLICE: bool = false;
@@ -367,7 +547,7 @@ pub struct ExtP {
     pub ok: bool,
     pub tag: u32,
 }
-impl<'s, I: Kind<'s>, R: Er<'s, I>> ExtParser<'s, I, Val, Ex<R>> for ExtP {
+impl<'s, I: Kind<'s> + ValueInput<'s>, R: Er<'s, I>> ExtParser<'s, I, Val, Ex<R>> for ExtP {
     fn parse(&self, inp: &mut InputRef<'s, '_, I, Ex<R>>) -> Result<Val, R> {
         let before = inp.cursor();
         let mut s = String::new();
@@ -426,18 +606,15 @@ pub struct Bld<'s, I: Kind<'s>, R: Er<'s, I>> {
     /// C18: wrap every node in a map_with that records the user state (and make select / fold_with
     /// callbacks record it too)
     pub obs_state: bool,
+    /// C07: try_map / validate / select closures also record the span they are given
+    pub cap_spans: bool,
     recs: HashMap<u8, BP<'s, I, R>>,
 }
 
-macro_rules! toks {
-    ($s:expr, $I:ty) => {
-        $s.chars().map(<<$I as Kind>::Tok as Tk>::from_char).collect::<Vec<_>>()
-    };
-}
 
 impl<'s, I: Kind<'s>, R: Er<'s, I>> Bld<'s, I, R> {
     pub fn new(g: &G, observed: bool) -> Self {
-        Bld { ids: number(g), observed, rec_style: RecStyle::Func, explicit: false, obs_state: false, recs: HashMap::new() }
+        Bld { ids: number(g), observed, rec_style: RecStyle::Func, explicit: false, obs_state: false, cap_spans: false, recs: HashMap::new() }
     }
 
     pub fn build(&mut self, g: &G) -> BP<'s, I, R> {
@@ -638,78 +815,18 @@ impl<'s, I: Kind<'s>, R: Er<'s, I>> Bld<'s, I, R> {
             Just(s) => just::<_, I, Ex<R>>(toks!(s, I))
                 .map(|v: Vec<I::Tok>| Val::Str(v.iter().map(|t| t.to_char()).collect()))
                 .boxed(),
-            Any => any::<I, Ex<R>>().map(|t: I::Tok| Val::Tok(t.to_char())).boxed(),
-            OneOf(s) => one_of::<_, I, Ex<R>>(toks!(s, I))
-                .map(|t: I::Tok| Val::Tok(t.to_char()))
-                .boxed(),
-            NoneOf(s) => none_of::<_, I, Ex<R>>(toks!(s, I))
-                .map(|t: I::Tok| Val::Tok(t.to_char()))
-                .boxed(),
-            Select(s) if self.obs_state => {
-                let set = s.clone();
-                chumsky::primitive::select::<_, I, Val, Ex<R>>(move |t: I::Tok, e| {
-                    let c = t.to_char();
-                    if set.contains(c) {
-                        let st = e.state();
-                        Some(Val::St(st.n, st.h, Box::new(Val::Tok(c))))
-                    } else {
-                        None
-                    }
-                })
-                .boxed()
-            }
-            Select(s) => {
-                let set = s.clone();
-                chumsky::primitive::select::<_, I, Val, Ex<R>>(move |t: I::Tok, _e| {
-                    let c = t.to_char();
-                    if set.contains(c) {
-                        Some(Val::Tok(c))
-                    } else {
-                        None
-                    }
-                })
-                .boxed()
-            }
+            Any => I::p_any::<R>(),
+            OneOf(s) => I::p_one_of::<R>(s),
+            NoneOf(s) => I::p_none_of::<R>(s),
+            Select(s) => I::p_select::<R>(s, if self.obs_state { SelFlavour::State } else if self.cap_spans { SelFlavour::Span } else { SelFlavour::Plain }),
             End => end::<I, Ex<R>>().map(|()| Val::Unit).boxed(),
             Empty => empty::<I, Ex<R>>().map(|()| Val::Unit).boxed(),
-            Custom { take, ok, tag } => {
-                let (take, ok, tag) = (*take, *ok, *tag);
-                custom::<_, I, Val, Ex<R>>(move |inp| {
-                    let before = inp.cursor();
-                    let mut s = String::new();
-                    for i in 0..take {
-                        // every second token is taken with peek() + skip() instead of next()
-                        let t = if i % 2 == 1 {
-                            let t = inp.peek();
-                            if t.is_some() {
-                                inp.skip();
-                            }
-                            t
-                        } else {
-                            inp.next()
-                        };
-                        match t {
-                            Some(t) => s.push(t.to_char()),
-                            None => {
-                                return Err(R::custom(inp.span_since(&before), format!("C{}:eof", tag)))
-                            }
-                        }
-                    }
-                    if ok {
-                        Ok(Val::Str(s))
-                    } else {
-                        Err(R::custom(inp.span_since(&before), format!("C{}", tag)))
-                    }
-                })
-                .boxed()
-            }
+            Custom { take, ok, tag } => I::p_custom::<R>(*take, *ok, *tag),
             G::Ext { take, ok, tag } if self.explicit => {
                 let g2 = G::Custom { take: *take, ok: *ok, tag: *tag };
                 self.node(&g2)
             }
-            G::Ext { take, ok, tag } => {
-                Parser::<'s, I, Val, Ex<R>>::boxed(Ext(ExtP { take: *take, ok: *ok, tag: *tag }))
-            }
+            G::Ext { take, ok, tag } => I::p_ext::<R>(*take, *ok, *tag),
             Then(a, c) => {
                 let (a, c) = (self.build(a), self.build(c));
                 a.then(c).map(|(a, c)| Val::pair(a, c)).boxed()
@@ -799,7 +916,10 @@ impl<'s, I: Kind<'s>, R: Er<'s, I>> Bld<'s, I, R> {
                 }
             }
             OrNot(a) => self.build(a).or_not().map(Val::opt).boxed(),
-            Not(a) => self.build(a).not().map(|()| Val::Unit).boxed(),
+            Not(a) => {
+                let a = self.build(a);
+                I::p_not::<R>(a)
+            }
             AndIs(a, c) => {
                 let (a, c) = (self.build(a), self.build(c));
                 a.and_is(c).boxed()
@@ -924,37 +1044,7 @@ impl<'s, I: Kind<'s>, R: Er<'s, I>> Bld<'s, I, R> {
                         let (sk, un) = (self.build(skip), self.build(until));
                         a.recover_with(skip_then_retry_until(sk.ignored(), un.ignored())).boxed()
                     }
-                    Strat::Nested { open, close, others, tag } => {
-                        let tag = *tag;
-                        let o = I::Tok::from_char(*open);
-                        let c = I::Tok::from_char(*close);
-                        let ot: Vec<(I::Tok, I::Tok)> = others
-                            .iter()
-                            .map(|(a, b)| (I::Tok::from_char(*a), I::Tok::from_char(*b)))
-                            .collect();
-                        let fb = move |_s: I::Spn| Val::Fallback(tag);
-                        match ot.len() {
-                            0 => a
-                                .recover_with(via_parser(nested_delimiters::<I, Val, Ex<R>, _, 0>(o, c, [], fb)))
-                                .boxed(),
-                            1 => a
-                                .recover_with(via_parser(nested_delimiters::<I, Val, Ex<R>, _, 1>(
-                                    o,
-                                    c,
-                                    [ot[0].clone()],
-                                    fb,
-                                )))
-                                .boxed(),
-                            _ => a
-                                .recover_with(via_parser(nested_delimiters::<I, Val, Ex<R>, _, 2>(
-                                    o,
-                                    c,
-                                    [ot[0].clone(), ot[1].clone()],
-                                    fb,
-                                )))
-                                .boxed(),
-                        }
-                    }
+                    Strat::Nested { open, close, others, tag } => I::p_nested::<R>(a, *open, *close, others, *tag),
                 }
             }
             Labelled(a, l, ctx) => {
@@ -1034,7 +1124,10 @@ impl<'s, I: Kind<'s>, R: Er<'s, I>> Bld<'s, I, R> {
                 }
             },
             RecRef(id) => self.recs.get(id).expect("unbound RecRef").clone(),
-            Lazy(a) => self.build(a).lazy().boxed(),
+            Lazy(a) => {
+                let a = self.build(a);
+                I::p_lazy::<R>(a)
+            }
             StPush(a, t) => {
                 let t = *t;
                 // validate() runs its closure in parse and in check mode alike (map_with closures
